@@ -882,13 +882,44 @@ func (q *c17Req) body() []byte {
 	} else if q.NoStreamKey {
 		m["stream"] = false // "a non-streaming request": said explicitly instead of by omission
 	}
+	// "whatever else the message contains": a third of the requests (chosen by a hash of the
+	// latest user message, so that a replay builds the same body) carry what real chat clients
+	// send besides the latest user message - sampling parameters, tool definitions, numbers and
+	// objects where the gateway itself reads nothing, and an earlier multimodal turn whose
+	// content is a list of parts instead of a string. None of it changes what the latest user
+	// message is.
+	h := uint32(2166136261)
+	for i := 0; i < len(q.Text); i++ {
+		h = (h ^ uint32(q.Text[i])) * 16777619
+	}
+	extras := h % 6 // 0,1: typed extras; 1,2: multimodal earlier turn; 3..5: plain
+	if extras <= 1 {
+		m["temperature"] = 0.2
+		m["max_tokens"] = 256
+		m["n"] = 1
+		m["user"] = 12345
+		m["stop"] = []any{"\n\n", "END"}
+		m["tools"] = []any{map[string]any{"type": "function", "function": map[string]any{"name": "lookup", "parameters": map[string]any{"type": "object"}}}}
+		m["metadata"] = map[string]any{"trace": true, "depth": 3}
+	}
 	if q.Shape == "prompt" {
 		m["prompt"] = q.Text
 	} else {
-		msgs := []message{}
-		msgs = append(msgs, q.Before...)
+		msgs := []any{}
+		if extras == 1 || extras == 2 {
+			msgs = append(msgs,
+				map[string]any{"role": "user", "content": []any{
+					map[string]any{"type": "text", "text": "what is in this picture"},
+					map[string]any{"type": "image_url", "image_url": map[string]any{"url": "data:image/png;base64,AAAA"}}}},
+				map[string]any{"role": "assistant", "content": "a diagram", "tool_calls": []any{}, "name": nil})
+		}
+		for _, x := range q.Before {
+			msgs = append(msgs, x)
+		}
 		msgs = append(msgs, message{Role: "user", Content: q.Text})
-		msgs = append(msgs, q.After...)
+		for _, x := range q.After {
+			msgs = append(msgs, x)
+		}
 		m["messages"] = msgs
 	}
 	b, _ := json.Marshal(m)
